@@ -367,9 +367,9 @@ def hang_signature(c):
 
 
 # --------------------------------------------------------------------------------------- generators
-def spec(n, stages, det=None, i="I", o="I", e="I", errto=0, shape="L", term="join", data=0, read="0", write=0):
-    return "n=%d stages=%s det=%s in=%s out=%s err=%s errto=%d shape=%s term=%s data=%d read=%s write=%d" % (
-        n, ",".join(stages), det or "0" * n, i, o, e, errto, shape, term, data, read, write)
+def spec(n, stages, det=None, i="I", o="I", e="I", errto=0, shape="L", term="join", data=0, read="0", write=0, errwhen="late"):
+    return "n=%d stages=%s det=%s in=%s out=%s err=%s errto=%d errwhen=%s shape=%s term=%s data=%d read=%s write=%d" % (
+        n, ",".join(stages), det or "0" * n, i, o, e, errto, errwhen, shape, term, data, read, write)
 
 
 def shapes_for(n, rng):
@@ -401,8 +401,11 @@ def gen_c13(ctx):
                     st[rng.below(n)] = "C"
                 if i in ("I", "F") and rng.below(5) == 0:
                     st[0] = "G%d:0" % data
-                specs.append(spec(n, st, i=i, o=o, errto=rng.below(2), shape=shape, term=term, data=data,
-                                  read="all", write=data if term == "stream_stdin" else 0))
+                errto = rng.below(2)
+                # `stderr_to` is a setting of the pipeline: given before further commands are appended it still covers them
+                errwhen = "early" if errto and term != "capture" and rng.below(2) else "late"
+                specs.append(spec(n, st, i=i, o=o, errto=errto, shape=shape, term=term, data=data,
+                                  read="all", write=data if term == "stream_stdin" else 0, errwhen=errwhen))
     return specs
 
 
